@@ -301,6 +301,18 @@ where
         self.as_mut().project().in_flight_requests
     }
 
+    /// Number of tracked in-flight requests (verification accessor).
+    #[cfg(tarpc_verif)]
+    pub fn verif_in_flight_len(&self) -> usize {
+        self.in_flight_requests.len()
+    }
+
+    /// Number of pending deadline timers (verification accessor).
+    #[cfg(tarpc_verif)]
+    pub fn verif_timers_len(&self) -> usize {
+        self.in_flight_requests.verif_timers_len()
+    }
+
     fn transport_pin_mut<'a>(self: &'a mut Pin<&mut Self>) -> Pin<&'a mut Fuse<C>> {
         self.as_mut().project().transport
     }
